@@ -595,8 +595,19 @@ class Interp:
         else:
             raise Malformed("assignment target")
 
-    def guarded(self, env, test, stmts, when):
-        """statements of an if branch as guarded assignments (ast2ast's rewriting)"""
+    def guarded(self, env, guards, stmts):
+        """statements of an if branch as guarded assignments.
+
+        `guards` = [(test value, when)], outermost first: the values of the tests of the enclosing
+        if statements, each computed ONCE, when python reaches that `if` - before any statement of
+        its branches runs (a branch that re-assigns a variable its own test reads does not change
+        which branch is running).  A statement takes effect iff every guard holds; the type of the
+        variable afterwards is the widening of old and new type (the meaning of an if-expression
+        `new if test else old`, nested once per guard - the documented rewriting).
+
+        `elif` / an `if` nested in an else branch: the inner test is evaluated where python evaluates
+        it (after the statements before it in that branch), and guards the inner branches together with
+        the outer guards.  An `if` nested in the *taken* branch is not given a meaning here (Reject)."""
         for s in stmts:
             if isinstance(s, ast.AugAssign) and isinstance(s.target, ast.Name):
                 name = s.target.id
@@ -604,9 +615,19 @@ class Interp:
             elif isinstance(s, ast.Assign) and len(s.targets) == 1 and isinstance(s.targets[0], ast.Name):
                 name = s.targets[0].id
                 val = self.ev(s.value, env)
-            elif isinstance(s, ast.If) and not when:
-                # an if nested in an else branch is rewritten too
-                raise Reject("nested if")
+            elif isinstance(s, ast.If) and not guards[-1][1]:
+                # an if nested in an else branch (elif)
+                t2 = self.ev(s.test, env)
+                if t2.const and t2.items is None:
+                    self.guarded(env, guards, s.body if t2.ex else s.orelse)
+                    continue
+                if t2.ty != BOOL:
+                    raise Malformed("if test is not a bool")
+                self.guarded(env, guards + [(t2, True)], s.body)
+                self.guarded(env, guards + [(t2, False)], s.orelse)
+                continue
+            elif isinstance(s, ast.If):
+                raise Reject("if nested in the body of an if")
             else:
                 raise Reject("statement form in an if body")
             if name not in env:
@@ -614,7 +635,9 @@ class Interp:
             old = env[name]
             if val.items is None and val.const:
                 val = V(val.ty, val.ex, val.wr, val.k, False)
-            env[name] = select(test, val, old) if when else select(test, old, val)
+            for test, when in reversed(guards):
+                val = select(test, val, old) if when else select(test, old, val)
+            env[name] = val
 
     def run_block(self, stmts, env):
         for s in stmts:
@@ -640,8 +663,9 @@ class Interp:
                     continue
                 if t.ty != BOOL:
                     raise Malformed("if test is not a bool")
-                self.guarded(env, t, s.body, True)
-                self.guarded(env, t, s.orelse, False)
+                # `t` is a value: the test was evaluated once, above; nothing a branch assigns changes it
+                self.guarded(env, [(t, True)], s.body)
+                self.guarded(env, [(t, False)], s.orelse)
             elif isinstance(s, ast.For):
                 if s.orelse or not isinstance(s.target, ast.Name):
                     raise Malformed("for form")
@@ -744,6 +768,52 @@ class Program:
                     x += Fraction(1, 2 ** (k + 1))
             return V(ty, x)
         return V(ty, sum(1 << k for k, b in enumerate(bits) if b))
+
+    def cpython(self, row):
+        """the value CPython itself returns for the source text on this row (annotations stripped, Qint
+        arguments as plain ints, tuples as tuples), flattened like `flatten`; None when the program is not
+        plain python over ints / bools / tuples or raises there.  Used only to cross-check this
+        interpreter's exact value `ex` (the statement semantics above is hand-written)."""
+        def plain(t):
+            return t == BOOL or t[0] == "qint" or (t[0] == "tuple" and all(plain(x) for x in t[1]))
+
+        if not plain(self.ret) or not all(plain(t) for _, t in self.args):
+            return None
+        if getattr(self, "_pyfun", None) is None:
+            fn = ast.parse(self.src).body[0]
+            for x in fn.args.args:
+                x.annotation = None
+            fn.returns = None
+            fn.decorator_list = []
+            fn.name = "_qv_fn"
+            mod = ast.Module(body=[fn], type_ignores=[])
+            ast.fix_missing_locations(mod)
+            ns = {}
+            try:
+                exec(compile(mod, "<pysem>", "exec"), ns)     # noqa: S102 - generated / corpus programs only
+            except Exception:  # noqa
+                return None
+            self._pyfun = ns["_qv_fn"]
+
+        def val(v):
+            if v.items is not None:
+                return tuple(val(x) for x in v.items)
+            return v.ex
+
+        def flat(x):
+            if isinstance(x, (tuple, list)):
+                return [z for y in x for z in flat(y)]
+            return [x]
+
+        vals, p = [], 0
+        for n, t in self.args:
+            k = ty_bits(t)
+            vals.append(val(self.decode(t, row[p:p + k])))
+            p += k
+        try:
+            return flat(self._pyfun(*vals))
+        except Exception:  # noqa - IndexError, TypeError (a[0] on an int), ZeroDivisionError ...
+            return None
 
     def run(self, row, quirks=()):
         """row: list of bools for self.argbits -> (returned V coerced to the declared type, events)"""
